@@ -348,7 +348,68 @@ func scramGs2() (out string) {
 	return "some [\n  " + strings.Join(rows, ",\n  ") + "]"
 }
 
+// definedConds are the SASL failure conditions of RFC 6120 §6.5
+var definedConds = []string{"aborted", "account-disabled", "credentials-expired", "encryption-required", "incorrect-encoding",
+	"invalid-authzid", "invalid-mechanism", "malformed-request", "mechanism-too-weak", "not-authorized", "temporary-auth-failure"}
+
+// failConds: a <failure/> with every defined condition, an unknown one and none at all, sent to
+// both roles: (role, condition, Authn, the error is the peer's SASL failure, its text)
+func failConds() (out string) {
+	defer func() {
+		if recover() != nil {
+			out = "none"
+		}
+	}()
+	var rows []string
+	conds := append(append([]string(nil), definedConds...), "something-new", "")
+	for _, recv := range []bool{false, true} {
+		for _, c := range conds {
+			el := "<failure xmlns='" + nsSASL + "'/>"
+			if c != "" {
+				el = "<failure xmlns='" + nsSASL + "'><" + c + "/></failure>"
+			}
+			var conn *nc.Conn
+			var f xmpp.StreamFeature
+			role := "cli"
+			if recv {
+				role = "srv"
+				conn = nc.NewConn(nc.S(nc.Header("jabber:client", "", "", "example.net")), nc.S(el))
+				f = xmpp.SASLServer(func(*sasl.Negotiator) bool { return true }, sasl.Plain)
+			} else {
+				conn = nc.NewConn(nc.S(nc.Header("jabber:client", "sid1", "example.net", "user@example.net")), nc.S(advXML([]string{"PLAIN"})), nc.S(el))
+				f = xmpp.SASL("", "pw", sasl.Plain)
+			}
+			var mask xmpp.SessionState
+			var nerr error
+			orig := f.Negotiate
+			f.Negotiate = func(ctx context.Context, s *xmpp.Session, data interface{}) (xmpp.SessionState, io.ReadWriter, error) {
+				m, rw, err := orig(ctx, s, data)
+				mask, nerr = m, err
+				return m, rw, err
+			}
+			called, pv := probeSession(conn, recv, xmpp.Secure, f)
+			if pv != "" || called == 0 || nerr == nil {
+				return "none"
+			}
+			isSasl := strings.HasPrefix(nc.ErrClass(nerr), "sasl:")
+			rows = append(rows, fmt.Sprintf("(%q, %q, %s, %s, %q)", role, c, leanBool(mask&xmpp.Authn != 0), leanBool(isSasl), nerr.Error()))
+			if probeSink != nil {
+				cf := c
+				if cf == "" {
+					cf = "-"
+				}
+				probeSink(fmt.Sprintf("failc %s %s", role, cf), fmt.Sprintf("%s %s %s", common.B(mask&xmpp.Authn != 0), common.B(isSasl), common.HexS(nerr.Error())))
+			}
+		}
+	}
+	return "some [\n  " + strings.Join(rows, ",\n  ") + "]"
+}
+
 func probeFacts(sb *strings.Builder) {
+	sb.WriteString("\n/-- PROBE: a <failure/> carrying every defined condition, an unknown one, none: (role, condition, Authn, the error is the SASL failure, its text) -/\n")
+	fmt.Fprintf(sb, "def saslFailureConds : Option (List (String × String × Bool × Bool × String)) := %s\n", failConds())
+	sb.WriteString("\n/-- PROBE: sessions on a real *tls.Conn (in-process handshake): (role, TLS version, tee, (recording mechanism ran, TLS state seen, version seen, tls-unique seen is the connection's)) -/\n")
+	fmt.Fprintf(sb, "def saslNegOptsTLS : Option (List (String × Nat × Bool × (Bool × Bool × Nat × Bool))) := %s\n", realTLSOpts())
 	sb.WriteString("\n/-- PROBE: real SCRAM clients: (connection kind, configured, advertised, mechanism in <auth/>, channel-binding flag of the client-first message) -/\n")
 	fmt.Fprintf(sb, "def saslScramGs2 : Option (List (Nat × List String × List String × String × String)) := %s\n", scramGs2())
 	sb.WriteString("\n/-- PROBE: (role, mechanism names, `Necessary`, `Prohibited`) of the feature values the code under test builds for every list of one or two exported mechanisms -/\n")
@@ -412,6 +473,15 @@ func genProbesOnly(r *common.Run, only string) {
 					r.Fail("client-mechanism-selection", "not-advertised", lines, "the mechanism in <auth/> was not advertised")
 				}
 			}
+		case "failc":
+			if len(o) >= 2 && (o[0] != "0" || o[1] != "1") {
+				r.Fail("failure-ends-unauthenticated", f[1], lines, "a <failure/> must end the exchange unauthenticated with the peer's failure as error (authn is-sasl-failure text): "+obs)
+			}
+		case "optstls":
+			if len(o) == 4 && (o[0] != "1" || o[1] != "1" || o[2] != f[2] || o[3] != "1") {
+				k := "tee=" + f[3]
+				r.Fail("negotiator-tls-state", f[1]+"-real-tls-"+k, lines, "on a real TLS connection the mechanism's negotiator must be given the state of that connection (ran seen version tls-unique-ok): "+obs)
+			}
 		case "opts":
 			if len(o) >= 1 {
 				want := f[2] == "2" || f[2] == "3"
@@ -440,5 +510,11 @@ func genProbesOnly(r *common.Run, only string) {
 	}
 	if tab == "" || tab == "gs2" {
 		_ = scramGs2()
+	}
+	if tab == "" || tab == "failc" {
+		_ = failConds()
+	}
+	if tab == "" || tab == "optstls" {
+		_ = realTLSOpts()
 	}
 }
